@@ -161,6 +161,13 @@ Definition c03_dump (d : dump) : string :=
     if live_cacheable o && existsb (fun o' => live_cacheable o' && dkey_eqb (dkey_of o) (dkey_of o') && negb (same_task o o')) (d_ops d)
     then "C03:two-live-tasks-for-one-digest" else "") (d_ops d)).
 
+(* a client leaving does not disturb the others: an operation that a client
+   is waiting on has no abandonment (no-waiter) timeout pending *)
+Definition c03_waited (d : dump) : string :=
+  first_nonempty (map (fun o =>
+    if negb (Nat.eqb (do_waiters o) 0) && match do_cleanup o with Some _ => true | None => false end
+    then "C03:operation-with-waiter-keeps-abandonment-timeout" else "") (d_ops d)).
+
 (* do_not_cache requests are never merged: the operation created for one stands alone *)
 Definition c03_exec (pre post : dump) (a : exec_args) : string :=
   if x_dnc a then
@@ -470,9 +477,26 @@ Definition p_step (cfg : config) (t0 : Z) (m : mon) (pre : dump) (e : event) (o 
                     end
                   | _, _ => ""
                   end) (d_ops post)) in
+  (* C02: "no waiting clients" is only a stated cause if nobody was waiting on the task's last operation *)
+  let is_kill := match e with
+                 | EStartKill _ _ _ _ | EKillQueue _ _ _ _ => true
+                 | EEnter c _ => negb (existsb (fun s => Nat.eqb (sm_call s) c) (m_streams m0))
+                                 && negb (existsb (fun '(c', _) => Nat.eqb c c') (m_syncs m0))
+                 | _ => false
+                 end in
+  let e_cancel := if is_kill then "" else first_nonempty (map (fun o =>
+                  match do_resp o, find_dop pre (do_name o) with
+                  | Some r, Some o0 =>
+                    match do_resp o0 with
+                    | None => if scheduler_made r && (r_code r =? cCANCELLED)%N && negb (Nat.eqb (do_waiters o0) 0)
+                              then "C02:cancelled-for-lack-of-waiters-while-a-client-waited" else ""
+                    | Some _ => ""
+                    end
+                  | _, _ => ""
+                  end) (d_ops post)) in
   let e_exec := match e with
                 | EStartExecute c a _ => first_nonempty [c07_exec o; c03_exec pre post a; c05_exec cfg t0 pre post c a o]
                 | _ => ""
                 end in
-  (m, first_nonempty [c01_dump post; e_sync; e_stream; e_lost; c03_dump post; c04_dump post; e_exec; c05_assign pre post;
+  (m, first_nonempty [c01_dump post; e_sync; e_stream; e_lost; e_cancel; c03_dump post; c03_waited post; c04_dump post; e_exec; c05_assign pre post;
                       c06_dump m post; c06_final m post; e_arm; e_learn; c07_background post; c07_learners_match m post]).
